@@ -5,7 +5,7 @@ import os, re, subprocess, sys
 COQ = '/verif/coq'
 HEADER = '''From Coq Require Import ZArith List Bool Arith Lia.
 From QV Require Import Core.Bits Core.Pauli Core.Symp Core.Code Core.Span Core.Rank Core.Dist Core.DistCSS Generated.LatticeArith.
-From QV Require Import Lattice.Basic Lattice.Planar Lattice.Toric Lattice.PlanarBounded Lattice.ToricBounded Lattice.PlanarAll Lattice.ToricAll.
+From QV Require Import Lattice.Basic Lattice.Planar Lattice.Toric Lattice.PlanarBounded Lattice.ToricBounded Lattice.PlanarAll Lattice.ToricAll Lattice.PlanarRankAll Lattice.ToricPathWeightAll Lattice.PlanarDistAll.
 From QV Require Import Lattice.RotPlanar Lattice.RotToric Lattice.Color Lattice.RotPlanarAll Lattice.RotPlanarBounded Lattice.RotToricBounded Lattice.ColorBounded.
 Import ListNotations.
 Open Scope Z_scope.
@@ -20,6 +20,8 @@ SPEC = {
    ('planar_site_operator_roundtrip', 'planar, all sizes: site/operator agree'),
    ('planar_logical_x_nontrivial', 'planar, all sizes: logical X is not a product of stabilizers'),
    ('planar_logical_z_nontrivial', 'planar, all sizes: logical Z is not a product of stabilizers'),
+   ('planar_rank_is_all', 'PLANAR, ALL SIZES: rank of the stabilizers is n-k and the 2k logicals are independent of them'),
+   ('planar_stabilizers_logicals_independent', ''), ('planar_stabilizers_count', ''),
    ('toric_valid_all', 'TORIC, ALL SIZES rows, cols >= 2: validate = Ok'),
    ('toric_flatten_bijective_all', 'toric, all sizes: flatten bijection'),
    ('planar_ctor_ok_iff', 'planar/toric constructor acceptance = documented range'), ('toric_ctor_ok_iff', ''),
@@ -43,6 +45,10 @@ SPEC = {
    ('planar_distance_upper', 'PLANAR, ALL SIZES: d = min(rows, cols) = weight of the lighter supplied logical; none lighter'),
    ('planar_logical_x_nontrivial', 'planar, all sizes: the supplied logicals are non-trivial, so d_true <= d'),
    ('planar_logical_z_nontrivial', ''),
+   ('planar_is_distance_all', 'PLANAR, ALL SIZES: min(rows, cols) IS the minimum distance (upper and lower bound)'),
+   ('planar_is_distance_nkd', 'the same with n and d read off the translated n_k_d formula'),
+   ('planar_centralizer', 'planar, all sizes: an operator commuting with all stabilizers and both logicals is a stabilizer product'),
+   ('planar_anticommute_z_weight', ''), ('planar_anticommute_x_weight', ''),
    ('toric_distance_upper', 'TORIC, ALL SIZES: d = min(rows, cols) attained by a supplied logical'), ('toric_logical_weights', ''),
    ('planar_distance_upto5_spec', 'planar <= 5x5 except 5x5: is_distance (exhaustive CSS search in the kernel)'),
    ('toric_distance_upto5_spec', 'toric <= 5x5 except 5x5'),
@@ -59,6 +65,7 @@ SPEC = {
    ('planar_plaquette_support_upto7', ''), ('syndrome_bit_maps_back', 'syndrome bit i maps back to plaquette i'),
    ('toric_path_syndrome_all', 'TORIC, ALL SIZES, arbitrary (wrapping) indices on one lattice: syndrome(path a b) = indicator{a mod shape, b mod shape}'),
    ('toric_path_syndrome_bit', ''), ('toric_path_weight_le', 'toric, all sizes: weight <= distance'),
+   ('toric_path_weight_eq', 'TORIC, ALL SIZES: weight of the path = decoder distance'), ('translation_short', 'toric translation is a shortest one'),
    ('toric_paths_upto7_spec', 'toric <= 7x7 all ordered pairs incl. wrap'), ('toric_plaquette_support_upto7', ''), ('tsyndrome_bit_maps_back', ''),
    ('rottoric_paths_upto_8', 'rotated toric even <= 8x8 all ordered pairs'), ('rottoric_paths_wrapping_upto_6', ''),
    ('rt_translation_target', 'rotated toric, ALL SIZES: translation leads from a to b modulo the period'), ('rt_translation_defined', ''),
